@@ -1,0 +1,9 @@
+//go:build verif
+
+package bft
+
+import "time"
+
+// VerifSetProposalVoteDeadline sets the deadline until which the node consults its proposal approve list (normally stored
+// by the Start loop on every NEW_HEIGHT reset); harnesses that drive the controller without the BFT loop use it.
+func (b *BFT) VerifSetProposalVoteDeadline(t time.Time) { b.deadlineMs.Store(t.UnixMilli()) }
